@@ -87,8 +87,10 @@ struct Machine {
 
     std::string step(const Op& o) {
         step_no++; deps::Kit& k = K(); uint64_t other_before = Other().dep_calls();
-        uint64_t fail_mask = armed; armed = 0; if (fail_mask && alloc_injected()) k.arm_fail(fail_mask); else k.disarm();
+        uint64_t fail_mask = armed; armed = 0; k.disarm();
         uint64_t failed0 = k.alloc_failed, req0 = k.alloc_calls;
+        // the failure schedule is armed immediately before the call under test (the harness's own probing calls must not consume it)
+        auto arm_now = [&]() { if (fail_mask && alloc_injected()) k.arm_fail(fail_mask); failed0 = k.alloc_failed; };
         auto observed_fail = [&]() { return k.alloc_failed > failed0; };
         std::string what = code_name(o.code); cls[std::string("op:") + what]++;
         std::string err;
@@ -116,7 +118,7 @@ struct Machine {
             unsigned f = (o.a & 7u); if (o.a & 0x30) f &= mask;            // model-guided: three times out of four ask only for enabled features
             f |= ((o.a & 8u) ? 0xFFFFFFE0u : 0u);
             if (wr.enabled) { wr.malloc_calls = wr.time_calls = wr.free_calls = 0; wr.window = true; }
-            polyseed_data* s = nullptr; int st = (int)polyseed_create(f, &s); if (wr.enabled) wr.window = false;
+            arm_now(); polyseed_data* s = nullptr; int st = (int)polyseed_create(f, &s); k.disarm(); if (wr.enabled) wr.window = false;
             bool supported = ((f & 7u) & ~mask) == 0;
             if (st == 0) { ptr[i] = s; model::Seed m; memcpy(m.secret.data(), rnd.data(), 19); m.secret[18] &= 0x3F; m.features = f & 7u;
                 if (opt & deps::OPT_TIME) m.birthday = model::birthday_index(t); else { unsigned b = model::birthday_index((uint64_t)time(nullptr)); m.birthday = b; lib::Image img = lib::store(s); unsigned v = img[8] | (img[9] << 8); if ((v & 1023u) + 1 == b || (v & 1023u) == b + 1) m.birthday = v & 1023u; }
@@ -142,7 +144,7 @@ struct Machine {
             model::Seed src = slot[j] ? *slot[j] : model::Seed(); img = model::image(src);
             if (kind == 1) img[30] ^= 1; else if (kind == 2) img[0] ^= 0x20; else if (kind == 3) { src.features |= 8; img = model::image(src); } else if (kind == 4) img[28] |= 0x80; else if (kind == 5) { model::Seed z; z.features = (o.c >> 3) & 7u; z.birthday = o.c; img = model::image(z); src = z; }
             release(i);
-            polyseed_data* s = nullptr; if (wr.enabled) { wr.malloc_calls = wr.free_calls = 0; wr.window = true; } int st = (int)polyseed_load(img.data(), &s); if (wr.enabled) wr.window = false;
+            polyseed_data* s = nullptr; if (wr.enabled) { wr.malloc_calls = wr.free_calls = 0; wr.window = true; } arm_now(); int st = (int)polyseed_load(img.data(), &s); k.disarm(); if (wr.enabled) wr.window = false;
             model::Seed ms; int expect = model::load_verdict(img.data(), mask, &ms);
             if (st == 0) { ptr[i] = s; slot[i] = (expect == 0) ? ms : model::Seed(); }
             if (observed_fail()) { saw_alloc_fail = true; if (st != model::MEMORY) err = std::string("the allocator failed during load but the status is ") + model::status_name(st); }
@@ -180,7 +182,7 @@ struct Machine {
             }
             release(i);
             polyseed_data* s = nullptr; const polyseed_lang* lo = nullptr; if (wr.enabled) { wr.malloc_calls = wr.free_calls = 0; wr.window = true; }
-            int st = expl ? (int)polyseed_decode_explicit(phrase.c_str(), (polyseed_coin)B, use, &s) : (int)polyseed_decode(phrase.c_str(), (polyseed_coin)B, &lo, &s); if (wr.enabled) wr.window = false;
+            arm_now(); int st = expl ? (int)polyseed_decode_explicit(phrase.c_str(), (polyseed_coin)B, use, &s) : (int)polyseed_decode(phrase.c_str(), (polyseed_coin)B, &lo, &s); k.disarm(); if (wr.enabled) wr.window = false;
             if (st == 0) { ptr[i] = s; slot[i] = (expect == model::OK) ? src : lib::abstract(s); }
             if (observed_fail()) { saw_alloc_fail = true; if (st != model::MEMORY) err = std::string("the allocator failed during ") + what + " but the status is " + model::status_name(st); else if (fl.check_model && expect != model::OK && expect != model::UNSUPPORTED && expect != -1) err = std::string(what) + ": allocation attempted although the outcome must be " + model::status_name(expect); }
             else if (fl.check_model && expect >= 0 && st != expect) err = std::string(what) + " returned " + model::status_name(st) + ", model says " + model::status_name(expect) + " (phrase kind " + std::to_string(kind) + ", language " + le.name_en + ", coins " + std::to_string(A) + "/" + std::to_string(B) + ", mask " + std::to_string(mask) + ")";
